@@ -256,8 +256,8 @@ func cmdC09(args []string) {
 					if len(cp.errs) > 0 {
 						base["type_errors"] = cp.errs
 						cls := errClass(cp.errs[0])
-						if cls == "syntax" && strings.HasSuffix(rw.New, "}") && inStmtHeader(f, p.Fset.File(f.Package), rw.From) {
-							// narrow input class: a composite literal proposed at the top level of an if/for/switch header
+						if cls == "syntax" && strings.Contains(rw.New, "{") && inStmtHeader(f, p.Fset.File(f.Package), rw.From) {
+							// narrow input class: a replacement containing a composite literal, proposed in an if/for/switch header
 							cls = "composite-literal-in-statement-header"
 						}
 						viol("does-not-typecheck:"+cls, "file no longer type-checks after substitution: "+cp.errs[0])
